@@ -164,8 +164,10 @@ impl<R> Archive<R> {
                 Ok(ChunkDescriptor {
                     checksum: dict.checksum.into(),
                     archive_size: dict.archive_size as usize,
+                    // Neither the start nor the end of the chunk may be beyond what an offset can express.
                     archive_offset: chunk_data_offset
                         .checked_add(dict.archive_offset)
+                        .filter(|offset| offset.checked_add(u64::from(dict.archive_size)).is_some())
                         .ok_or_else(|| ArchiveError::invalid_archive("invalid chunk offset"))?,
                     source_size: dict.source_size,
                 })
